@@ -159,7 +159,7 @@ func (p *Program) extractRoutes() ([]Route, []string) {
 	return routes, problems
 }
 
-func (p *Program) methodSets(pk interface{ }, e ast.Expr, problems *[]string) map[string][]string {
+func (p *Program) methodSets(pk interface{}, e ast.Expr, problems *[]string) map[string][]string {
 	apk := p.ByPath[pkgPath("api")]
 	if id, ok := e.(*ast.Ident); ok && id.Name == "nil" {
 		return nil
